@@ -76,5 +76,7 @@ PROPS = {
     "C15": dict(functions=[], lemmas=[], bounded="C15", level="exploration"),
     "C16": dict(functions=[], lemmas=[], bounded="C16", level="exploration"),
     "C19": dict(functions=[], lemmas=[], bounded="C19", level="exploration"),
-    "C20": dict(functions=[], lemmas=[], bounded="C20", level="exploration"),
+    # C20: only the leaf part of gen_data (primitives, fixed, enum, unions, references) is under contract
+    "C20": dict(functions=[("fastavro/utils.py", r"(_randbytes|_gen_utf8)", "default"), ("fastavro/utils.py", r"gen_data", "leafy")],
+                lemmas=["any_valid_at", "leafy_at", "all_str_at", "wf_branch_at"], bounded="C20", level="exploration"),
 }
